@@ -367,3 +367,46 @@ VARIANTS["C10"] = [
         "    out = np.unpackbits(sync_tr.view(np.uint8), bitorder=\"little\").reshape(sync_tr.size, 16)\n")], (), "LSB-first unpacking needs neither roll nor flip"),
     V("twin-fliplr", "twin", SG, [("    out = np.flip(np.roll(out, 8, axis=1), axis=1)\n", "    out = np.fliplr(np.roll(out, 8, axis=1))\n")], (), ""),
 ]
+
+# ------------------------------------------------------------------------------------------------ C16
+VARIANTS["C16"] = [
+    V("proportion-ge", "fire", VO, [("np.logical_or(saturation > proportion, n_diff_saturated > proportion)", "np.logical_or(saturation >= proportion, n_diff_saturated > proportion)")], ("D1",),
+      "exactly `proportion` of the channels over range now flags"),
+    V("logical-and", "fire", VO, [("np.logical_or(saturation > proportion, n_diff_saturated > proportion)", "np.logical_and(saturation > proportion, n_diff_saturated > proportion)")], ("D1",), ""),
+    V("factor-09", "fire", VO, [("np.abs(data) > max_voltage * 0.98", "np.abs(data) > max_voltage * 0.9")], ("D1",), ""),
+    V("range-ge", "fire", VO, [("np.abs(data) > max_voltage * 0.98", "np.abs(data) >= max_voltage * 0.98")], ("D1",), ""),
+    V("mean-over-time", "fire", VO, [("saturation = np.mean(np.abs(data) > max_voltage * 0.98, axis=0)", "saturation = np.mean(np.abs(data) > max_voltage * 0.98, axis=1)")], ("D1",), ""),
+    V("pad-front", "fire", VO, [("    n_diff_saturated = np.r_[n_diff_saturated, 0]\n", "    n_diff_saturated = np.r_[0, n_diff_saturated]\n")], ("D1",), "slew flag lands on the sample after the jump"),
+    V("no-abs", "fire", VO, [("np.mean(np.abs(data) > max_voltage * 0.98, axis=0)", "np.mean(data > max_voltage * 0.98, axis=0)")], ("D1",), "negative rail not detected"),
+    V("mute-from-fraction", "fire", VO, [(
+        "    saturation = np.logical_or(saturation > proportion, n_diff_saturated > proportion)\n", "    fraction = saturation\n    saturation = np.logical_or(saturation > proportion, n_diff_saturated > proportion)\n"), (
+        "1 - scipy.signal.convolve(saturation, win, mode='same')", "1 - scipy.signal.convolve(fraction, win, mode='same')")], ("D2", "D3"),
+      "gain follows the fraction of saturated channels, not the flags"),
+    V("maximum-dropped", "fire", VO, [("    mute = np.maximum(0, 1 - scipy.signal.convolve(saturation, win, mode='same'))\n", "    mute = 1 - scipy.signal.convolve(saturation, win, mode='same')\n")], ("D3",), "negative gain inside long runs"),
+    V("conv-full", "fire", VO, [("scipy.signal.convolve(saturation, win, mode='same')", "scipy.signal.convolve(saturation, win, mode='full')[:saturation.size]")], ("D3",), "gain delayed by half the window"),
+    V("return-swapped", "fire", VO, [("    return saturation, mute\n\n\ndef interpolate_bad_channels", "    return mute, saturation\n\n\ndef interpolate_bad_channels")], ("D3", "D2"), ""),
+    V("callsite-range-all", "fire", VO, [("data=chunk, max_voltage=_sr.range_volts[:ncv], fs=_sr.fs)", "data=chunk, max_voltage=_sr.range_volts[:-1], fs=_sr.fs)")], ("D4",),
+      "identical for 385-channel files with one sync, wrong for nidq or subset files"),
+    V("twin-clip", "twin", VO, [("    mute = np.maximum(0, 1 - scipy.signal.convolve(saturation, win, mode='same'))\n", "    mute = np.clip(1 - scipy.signal.convolve(saturation, win, mode='same'), 0, 1)\n")], (), ""),
+    V("twin-bitor", "twin", VO, [("np.logical_or(saturation > proportion, n_diff_saturated > proportion)", "(saturation > proportion) | (n_diff_saturated > proportion)")], (), ""),
+]
+
+# ------------------------------------------------------------------------------------------------ C15
+VARIANTS["C15"] = [
+    V("label-set-only-dead", "fire", VO, [("gp.where(np.logical_or(channel_labels == 1, channel_labels == 2))[0]", "gp.where(channel_labels == 1)[0]")], ("D1",), "noisy channels left in"),
+    V("label-set-includes-outside", "fire", VO, [("gp.where(np.logical_or(channel_labels == 1, channel_labels == 2))[0]", "gp.where(channel_labels > 0)[0]")], ("D1",), "outside-brain channels rewritten"),
+    V("store-neighbour-row", "fire", VO, [("        data[i, :] = gp.matmul(weights[imult], data[imult, :])\n", "        data[i, :] = gp.matmul(weights[imult], data[imult, :])\n        data[imult[0], :] = data[i, :]\n")], ("D1",), ""),
+    V("zeroing-removed", "fire", VO, [("        weights[bad_channels] = 0\n", "")], ("D2",), "adjacent bad channels feed each other"),
+    V("zeroing-after-norm", "fire", VO, [(
+        "        weights[bad_channels] = 0\n        weights[weights < 0.005] = 0\n        weights = weights / gp.sum(weights)\n", "        weights[weights < 0.005] = 0\n        weights = weights / gp.sum(weights)\n        weights[bad_channels] = 0\n")], ("D2",), ""),
+    V("threshold-after-norm", "fire", VO, [("        imult = gp.where(weights > 0)[0]\n", "        imult = gp.where(weights > 0.005)[0]\n")], ("D3",), "regression of the F10 repair"),
+    V("late-cut", "fire", VO, [(
+        "        weights[weights < 0.005] = 0\n        weights = weights / gp.sum(weights)\n", "        weights = weights / gp.sum(weights)\n        weights[weights < 0.005] = 0\n")], ("D3",), ""),
+    V("no-normalisation", "fire", VO, [("        weights = weights / gp.sum(weights)\n", "")], ("D2", "D3"), ""),
+    V("different-support", "fire", VO, [("gp.matmul(weights[imult], data[imult, :])", "gp.matmul(weights[imult], data[imult + 1, :])")], ("D3",), ""),
+    V("stores-reordered", "fire", VO, [("    ichannels[idead] = 1\n    ichannels[inoisy] = 2\n", "    ichannels[inoisy] = 2\n    ichannels[idead] = 1\n")], ("D4",), ""),
+    V("mode-axis0", "fire", VO, [("scipy.stats.mode(channel_labels, axis=1)", "scipy.stats.mode(channel_labels, axis=0)")], ("D4",), ""),
+    V("twin-support-before-norm", "twin", VO, [(
+        "        weights = weights / gp.sum(weights)\n        imult = gp.where(weights > 0)[0]\n", "        imult = gp.where(weights > 0)[0]\n        weights = weights / gp.sum(weights)\n")], (), ""),
+    V("twin-nonzero", "twin", VO, [("        imult = gp.where(weights > 0)[0]\n", "        imult = gp.where(weights != 0)[0]\n")], (), ""),
+]
